@@ -9,6 +9,7 @@ CONSTANTS
   Vias = {"ci", "dbc"}
   MapKinds = {"none"}
   URs = {FALSE, TRUE}
+  NoAutos = {FALSE}
   Faults = {0}
   DelFaults = {0}
   MaxOps = 1
